@@ -11,7 +11,7 @@ Anything else is `Unsupported` — the analysis stops (ANALYSIS-ERROR) instead o
 from __future__ import annotations
 
 import ast
-from typing import Any, Dict, Optional
+from typing import Any, Dict, List, Optional
 
 from .index import Repo, Module
 from .pyinterp import Env, Function, Interp, Stub, Unsupported, _MISSING
@@ -364,3 +364,154 @@ class _Callable(Stub):
 
     def _abs_call(self, *a, **k):
         return self.f(*a, **k)
+
+
+# ------------------------------------------------------------------------------------------------ generic recording values
+def canon(x) -> str:
+    """Canonical text of a value that may contain Sym terms."""
+    if isinstance(x, Sym):
+        return x.key()
+    if isinstance(x, (list, tuple)):
+        o, c = ("[", "]") if isinstance(x, list) else ("(", ")")
+        return o + ", ".join(canon(e) for e in x) + c
+    if isinstance(x, dict):
+        return "{" + ", ".join(f"{canon(k)}: {canon(v)}" for k, v in x.items()) + "}"
+    if isinstance(x, slice):
+        return f"{'' if x.start is None else canon(x.start)}:{'' if x.stop is None else canon(x.stop)}" + ("" if x.step is None else f":{canon(x.step)}")
+    if isinstance(x, float) and x != x:
+        return "nan"
+    if isinstance(x, Function):
+        return f"<function at line {getattr(x.node, 'lineno', '?')}>"
+    return repr(x)
+
+
+class SymWorld:
+    def __init__(self, oracle: Optional[Oracle] = None):
+        self.oracle = oracle or Oracle()
+        self.effects: List[tuple] = []
+
+
+class Sym(Stub):
+    """A value that records what is done to it: every attribute, call, item, arithmetic or comparison yields a new term.  Two pieces
+    of code that compute the same dataflow produce the same term whatever their locals, helper functions or statement order.
+    Column stores into a frame-like term are remembered, so `f['c'] = x; f.c` reads x.  Truth values are decided by the world's
+    oracle (explored both ways)."""
+
+    def __init__(self, w: SymWorld, op: str, *args, classes=()):
+        object.__setattr__(self, "_w", w)
+        object.__setattr__(self, "_op", op)
+        object.__setattr__(self, "_args", args)
+        object.__setattr__(self, "_classes", set(classes))
+        object.__setattr__(self, "_cols", {})
+
+    # ---- description
+    def key(self) -> str:
+        op, a = self._op, self._args
+        if op == "root":
+            base = a[0]
+        elif op == "attr":
+            base = f"{canon(a[0])}.{a[1]}"
+        elif op == "call":
+            kw = ", ".join(f"{k}={canon(v)}" for k, v in a[2])
+            pos = ", ".join(canon(x) for x in a[1])
+            base = f"{canon(a[0])}({', '.join(p for p in (pos, kw) if p)})"
+        elif op == "item":
+            base = f"{canon(a[0])}[{canon(a[1])}]"
+        elif op in ("neg", "invert", "abs"):
+            base = f"{op}({canon(a[0])})"
+        else:
+            base = f"({canon(a[0])} {op} {canon(a[1])})"
+        if self._cols:
+            base += "{" + ", ".join(f"{k} := {canon(v)}" for k, v in self._cols.items()) + "}"
+        return base
+
+    __repr__ = key
+
+    # ---- structure
+    def __getattr__(self, name):
+        if name.startswith("_"):
+            raise AttributeError(name)
+        cols = object.__getattribute__(self, "_cols")
+        if name in cols:
+            return cols[name]
+        return Sym(self._w, "attr", self, name)
+
+    def __setattr__(self, name, v):
+        self._w.effects.append(("setattr", self.key(), name, canon(v)))
+
+    _settable = True
+
+    def _abs_call(self, *a, **k):
+        return Sym(self._w, "call", self, tuple(a), tuple(sorted(k.items())))
+
+    __call__ = _abs_call  # lets reference computations be written in plain Python over Sym values
+
+    def __getitem__(self, k):
+        if isinstance(k, str) and k in self._cols:
+            return self._cols[k]
+        return Sym(self._w, "item", self, k)
+
+    def __setitem__(self, k, v):
+        if isinstance(k, str):
+            self._cols[k] = v
+        else:
+            self._w.effects.append(("setitem", self.key(), canon(k), canon(v)))
+
+    def _abs_isinstance(self, t) -> bool:
+        ts = t if isinstance(t, tuple) else (t,)
+        return any((isinstance(x, Sym) and x.key() in self._classes) or (isinstance(x, ClassRef) and x.name in self._classes) for x in ts)
+
+    # ---- operators
+    def _bin(self, op, o, swap=False):
+        return Sym(self._w, op, o, self) if swap else Sym(self._w, op, self, o)
+
+    def __add__(self, o): return self._bin("+", o)
+    def __radd__(self, o): return self._bin("+", o, True)
+    def __sub__(self, o): return self._bin("-", o)
+    def __rsub__(self, o): return self._bin("-", o, True)
+    def __mul__(self, o): return self._bin("*", o)
+    def __rmul__(self, o): return self._bin("*", o, True)
+    def __truediv__(self, o): return self._bin("/", o)
+    def __rtruediv__(self, o): return self._bin("/", o, True)
+    def __and__(self, o): return self._bin("&", o)
+    def __or__(self, o): return self._bin("|", o)
+    def __lt__(self, o): return self._bin("<", o)
+    def __le__(self, o): return self._bin("<=", o)
+    def __gt__(self, o): return self._bin(">", o)
+    def __ge__(self, o): return self._bin(">=", o)
+    def __eq__(self, o): return self._bin("==", o)
+    def __ne__(self, o): return self._bin("!=", o)
+    def __neg__(self): return Sym(self._w, "neg", self)
+    def __invert__(self): return Sym(self._w, "invert", self)
+    def __abs__(self): return Sym(self._w, "abs", self)
+    __hash__ = None
+
+    def __bool__(self):
+        return self._w.oracle.choose(self.key())
+
+    def __iter__(self):
+        raise Unsupported(f"iteration over the symbolic value {self.key()[:60]}")
+
+    def __len__(self):
+        raise Unsupported(f"len() of the symbolic value {self.key()[:60]}")
+
+
+def sym_root(w: SymWorld, name: str, classes=()) -> Sym:
+    return Sym(w, "root", name, classes=classes)
+
+
+def sym_walk(x):
+    """All Sym nodes inside a value."""
+    if isinstance(x, Sym):
+        yield x
+        for a in x._args:
+            yield from sym_walk(a)
+        for v in x._cols.values():
+            yield from sym_walk(v)
+    elif isinstance(x, (list, tuple)):
+        for e in x:
+            yield from sym_walk(e)
+    elif isinstance(x, dict):
+        for k, v in x.items():
+            yield from sym_walk(k)
+            yield from sym_walk(v)
